@@ -197,7 +197,14 @@ def run_check(prop, tier, seed=None, replay=None):
     _phase = _flock("leanphase")
     _phase.__enter__()
     # 1. T1: regenerate the definitions taken from the source
-    gen = extract.generate(prop.gen_engines)
+    # every Generated/*.lean file the property's Lean module (or one of its drivers) imports, directly or through other
+    # modules, is regenerated - not only the engines the plug-in lists: a run against another state of the sources (an
+    # earlier check of another property on a changed tree) may have left any of them behind
+    engines = list(prop.gen_engines)
+    for e in leanside.generated_deps([prop.lean_module] + ["Driver.%sMain" % d.capitalize() for d in prop.drivers]):
+        if e not in engines and e in extract.ENGINES.all():
+            engines.append(e)
+    gen = extract.generate(engines)
     for e, err in gen.items():
         if err is not None:
             unproved.append("translation of %s from /repo failed: %s" % (e, err))
